@@ -221,6 +221,12 @@ def r_numbering(repo, rep, R='R7.3'):
         mod = repo.module(rel)
         for fn in [f for f in mod.tree.body if isinstance(f, ast.FunctionDef)]:
             params = [a.arg for a in fn.args.args]
+            # a local that is only ever the parameter itself, or the parameter wrapped as the single sentence of a batch
+            for nm in {t.id for a_ in ast.walk(fn) if isinstance(a_, ast.Assign) for t in a_.targets if isinstance(t, ast.Name)}:
+                vals = [a_.value for a_ in ast.walk(fn) if isinstance(a_, ast.Assign) and any(isinstance(t, ast.Name) and t.id == nm for t in a_.targets)]
+                if nm not in params and vals and all((isinstance(v, ast.Name) and v.id in params) or (
+                        isinstance(v, ast.List) and len(v.elts) == 1 and isinstance(v.elts[0], ast.Name) and v.elts[0].id in params) for v in vals):
+                    params.append(nm)
             loops = [l for l in ast.walk(fn) if isinstance(l, ast.For) and isinstance(l.iter, ast.Call) and src(l.iter.func) == 'enumerate'
                      and l.iter.args and (src(l.iter.args[0]) in params or (isinstance(l.iter.args[0], ast.Call) and src(l.iter.args[0].func) == 'zip'
                                                                           and l.iter.args[0].args and src(l.iter.args[0].args[0]) in params))
@@ -260,6 +266,16 @@ def r_numbering(repo, rep, R='R7.3'):
                                 uses.append((idx in names, bool(inner_idx & names) and idx not in names, txt[:60]))
                         if isinstance(n, ast.Subscript) and src(n.value) == 'results' and isinstance(n.ctx, ast.Load):
                             uses.append((src(n.slice) == idx, False, src(n)[:40]))
+                if not uses and inner_over:
+                    # the records of a sentence are collected in a local list and filed once per sentence: table[<index>] = records
+                    tables = {t.id for a_ in ast.walk(fn) if isinstance(a_, (ast.Assign, ast.AnnAssign)) and a_.value is not None
+                              and (isinstance(a_.value, ast.Dict) or (isinstance(a_.value, ast.Call) and src(a_.value.func) in ('dict', 'OrderedDict', 'collections.OrderedDict')))
+                              for t in (a_.targets if isinstance(a_, ast.Assign) else [a_.target]) if isinstance(t, ast.Name)}
+                    for s_ in l.body:
+                        for n in ast.walk(s_):
+                            if isinstance(n, ast.Subscript) and isinstance(n.value, ast.Name) and n.value.id in tables and isinstance(n.ctx, ast.Store) \
+                                    and not any(n in list(ast.walk(q)) for q in inner_over):
+                                uses.append((src(n.slice) == idx, False, src(n)[:40]))
                 if rel.endswith('html.py') or rel.endswith('jigg_xml.py'):
                     # these write the sentence number / id once per sentence, outside the inner loop
                     txt = ' '.join(src(s) for s in l.body)
